@@ -1,8 +1,71 @@
-(* C23 — Durq is a FIFO queue, Dusq an insertion-ordered set; durable copy = memory (statements only). *)
+(* C23 — Durable queues and sets behave as FIFO models and survive reopen.
+   Statements only; proofs are in Proofs/DurqProofs.v.
+   Vocabulary (Model/Durq.v): [qrun pyeq set store0 queues0 ops] is the history of the model of
+   Durq (set=false) / Dusq (set=true) objects bound through Hold to keys of one durable sub-db
+   (the dictionary spec side of C24), [ref_run] the history of plain FIFO queues / insertion-ordered
+   sets, [run_ok] says that after EVERY op memory = reference content = durable copy (same values,
+   same order) and the result is the reference's.  [Reopen pre] is a crash point: the store is
+   reopened and a new object (preloaded with pre) is injected and resynced; ops may contain it
+   between any two operations. *)
 From Hio Require Import Base.Prelude Model.Lmdb Model.IoSub Model.Durq Proofs.DurqProofs.
 
-Theorem C23_push_appends : forall pyeq q s st v,
-  mem (snd (fst (qstep pyeq false q s st (Push v)))) = mem st ++ [v] /\
-  fst (fst (qstep pyeq false q s st (Push v))) q = s q ++ [v].
-Proof. exact push_fifo. Qed.
-Print Assumptions C23_push_appends.
+(* Durq: full statement, for every Python equality on values, every history over any number
+   of queues, reopen/resync at any point. *)
+Theorem C23_durq_fifo : forall pyeq ops,
+  run_ok ops (qrun pyeq false store0 queues0 ops) (ref_run pyeq false (fun _ => []) ops).
+Proof. intros. apply (durq_run pyeq ops store0 queues0). reflexivity. Qed.
+Print Assumptions C23_durq_fifo.
+
+(* Dusq.  Full statement (same as above with set = true, for every pyeq) is FALSE: see
+   C23_dusq_refuted.  Proved under the hypothesis that Python equality of values coincides with
+   equality of their serialisations (D38 is exactly its failure); [wf_op]: a removed value has a
+   non-empty serialisation (always true: it starts with the class name). *)
+Theorem C23_dusq_oset_partial : forall pyeq ops,
+  (forall a b, pyeq a b = true <-> a = b) ->
+  Forall (fun qo => wf_op (snd qo)) ops ->
+  run_ok ops (qrun pyeq true store0 queues0 ops) (ref_run pyeq true (fun _ => []) ops).
+Proof.
+  intros pyeq ops E W. apply (dusq_run pyeq E ops store0 queues0); auto.
+  intros q. split; [reflexivity|constructor].
+Qed.
+Print Assumptions C23_dusq_oset_partial.
+
+(* D38: Bag(1) and Bag(1.0) are equal in Python and serialised differently: after two pushes memory
+   holds one value and the durable copy two. *)
+Definition v_int : bytes := [66; 97; 103; 10; 49]%N.        (* stands for  Bag LF 1   *)
+Definition v_flt : bytes := [66; 97; 103; 10; 49; 46; 48]%N. (* stands for  Bag LF 1.0 *)
+Definition py_d38 : bytes -> bytes -> bool := pyeq_of [(v_int, 0%N); (v_flt, 0%N)].
+Theorem C23_dusq_refuted : exists pyeq ops,
+  Forall (fun qo => wf_op (snd qo)) ops /\
+  ~ run_ok ops (qrun pyeq true store0 queues0 ops) (ref_run pyeq true (fun _ => []) ops).
+Proof.
+  exists py_d38, [(0%N, Push v_int); (0%N, Push v_flt)]. split.
+  - repeat constructor; exact I.
+  - vm_compute. intros [_ [_ [_ [H _]]]]. discriminate H.
+Qed.
+Print Assumptions C23_dusq_refuted.
+
+(* Reopening the store and resyncing restores exactly the content, in every state in which the
+   durable copy equals memory (every reachable state, by the two theorems above). *)
+Theorem C23_reopen_restores : forall pyeq set q s st,
+  s q = mem st ->
+  (set = true -> NoDup (mem st) /\ forall a b, pyeq a b = true <-> a = b) ->
+  let '(s', st', r) := qstep pyeq set q s st (Reopen []) in
+  mem st' = mem st /\ s' q = mem st /\ r = Ok (RBool true).
+Proof. exact reopen_restores. Qed.
+Print Assumptions C23_reopen_restores.
+
+(* Non-vacuity: a history with duplicates, pulls, a crash point and a preloaded re-injection,
+   for both kinds, satisfies the hypotheses and behaves as stated. *)
+Example C23_example :
+  let ops := [(0, Push v_int); (0, Push v_flt); (1, Extend [v_int; v_int; v_flt]); (0, Push v_int);
+              (0, Reopen []); (0, Pull true); (1, Reopen [v_flt]); (1, Remove v_int); (1, Clear);
+              (1, Reopen [v_flt; v_flt]); (0, Pull false)]%N in
+  Forall (fun qo => wf_op (snd qo)) ops /\
+  map sn_mem (qrun bytes_eqb false store0 queues0 ops) =
+    [[v_int]; [v_int; v_flt]; [v_int; v_int; v_flt]; [v_int; v_flt; v_int]; [v_int; v_flt; v_int];
+     [v_flt; v_int]; [v_int; v_int; v_flt]; [v_int; v_int; v_flt]; []; [v_flt; v_flt]; [v_int]] /\
+  map sn_mem (qrun bytes_eqb true store0 queues0 ops) =
+    [[v_int]; [v_int; v_flt]; [v_int; v_flt]; [v_int; v_flt]; [v_int; v_flt];
+     [v_flt]; [v_int; v_flt]; [v_flt]; []; [v_flt]; []].
+Proof. vm_compute. repeat split; repeat constructor; discriminate. Qed.
